@@ -325,7 +325,7 @@ Fixpoint custom_press (cfg : kcfg) (k : kstate) (l : layout) (cur : list N) (acs
       else continue k l cur prev_btn out
     | CaSequenceNoerase n =>
       if sq_active (k_seq k) then
-        n' <- add16 (sq_noerase (k_seq k)) n ;;
+        let n' := sat_add16 (sq_noerase (k_seq k)) n in
         continue (set_k_seq (set_sq_noerase n' (k_seq k)) k) l cur prev_btn out
       else continue k l cur prev_btn out
     | CaRepeat =>
